@@ -84,6 +84,9 @@ class TemplateHandler(dict):
     """
     # Used for deferred loading
     loading = {}
+    # Guards the check-then-act sequences on the loaded and the loading table,
+    # since loader threads resolving includes use them at the same time.
+    _lock = threading.RLock()
 
     def browse(self, url):
         """
@@ -139,11 +142,17 @@ class TemplateHandler(dict):
         # nested (include) odML files.
         print("\nLoading file %s" % url)
 
-        if url in self:
-            doc = self[url]
-        elif url in self.loading:
-            self.loading[url].join()
-            self.loading.pop(url, None)
+        with self._lock:
+            if url in self:
+                return self[url]
+            loader = self.loading.get(url)
+
+        if loader is not None:
+            # Never wait while holding the lock, the loader might need it.
+            loader.join()
+            with self._lock:
+                if self.loading.get(url) is loader:
+                    self.loading.pop(url, None)
             doc = self.load(url)
         else:
             doc = self._load(url)
@@ -176,8 +185,11 @@ class TemplateHandler(dict):
             print("Failed to load '%s':\n %s" % (url, exc))
             return None
 
-        self[url] = doc
-        return doc
+        # The first result wins: all callers get the same cached object.
+        with self._lock:
+            if url not in self:
+                self[url] = doc
+            return self[url]
 
     def deferred_load(self, url):
         """
@@ -185,8 +197,10 @@ class TemplateHandler(dict):
 
         :param url: location of an odML template XML file.
         """
-        if url in self or url in self.loading:
-            return
+        with self._lock:
+            if url in self or url in self.loading:
+                return
 
-        self.loading[url] = threading.Thread(target=self._load, args=(url,))
-        self.loading[url].start()
+            loader = threading.Thread(target=self._load, args=(url,))
+            self.loading[url] = loader
+            loader.start()
